@@ -877,7 +877,7 @@ class Registry:
                 s2.env = dict(saved)
                 out.append((s2, v))
             return out
-        if ex.depth > 12:
+        if ex.depth > 48:
             raise EngineUnsupported("inline depth")
         env = self.bind_params(ex, st, f.node, f.self_val, args, kwargs, node)
         s = st.clone()
